@@ -198,6 +198,10 @@ def raiser_classes(e, esc):
     return set()
 
 
+FOREIGN_BUILTIN = {"ValueError", "TypeError", "KeyError", "IndexError", "AttributeError", "ZeroDivisionError", "OverflowError", "UnicodeError", "UnicodeDecodeError",
+                   "UnicodeEncodeError", "LookupError", "ArithmeticError", "RuntimeError", "AssertionError", "OSError", "IOError", "EOFError", "Exception", "struct.error"}
+
+
 def check_foreign(ctx, fi, self_cls, esc, rule="C06.R3"):
     S = summariser(ctx)
     M = ctx.model
@@ -237,7 +241,18 @@ def check_foreign(ctx, fi, self_cls, esc, rule="C06.R3"):
             verdict[k] = (cur[0] and ok, e, what if not ok else cur[2])
     for ok, e, what in verdict.values():
         ctx.ob(rule, fi, ok, what, node=e.node, key="call %s" % N.show(e["func"]), detail=CARRIERS.get(self_cls))
-    return len(verdict)
+    # a helper that was run in place (a function extracted by an edit, not one of the frozen package functions): a raise of a foreign class inside it
+    # that leaves the method is the same escape as a call of a raising helper
+    inl = {}
+    for p in paths:
+        if p.outcome[0] == "raise" and p.outcome[1].get("kind") == "explicit":
+            rs = [e for e in p.events if e.kind == "RAISE" and e.depth]
+            c = p.outcome[1].get("cls")
+            if rs and rs[-1] is p.events[-1] and c and not is_error_class(M, c) and c in FOREIGN_BUILTIN:
+                inl[id(rs[-1].node)] = (rs[-1], c)
+    for e, c in inl.values():
+        ctx.ob(rule, fi, False, "a helper run in place raises %s, which leaves %s untranslated" % (c, fi.qual), node=e.node, key="inlined raise %s" % c)
+    return len(verdict) + len(inl)
 
 
 def check_undef(ctx, fi, self_cls, rule="C06.R5"):
